@@ -118,3 +118,26 @@ Theorem c18_iterator_functions_are_source :
      SReturn [GVar "it"]].
 Proof. exact DecIter.iterator_functions. Qed.
 Print Assumptions c18_iterator_functions_are_source.
+
+(* a failed mutation between two Next() calls or inside a visitor clears its reclaim marks node by node: the lock is
+   released before unmarkReclaimable descends (it is not re-entrant), so the walk cannot block on itself *)
+From GK Require Import DecMarks.
+Theorem c18_unmark_releases_lock_before_descending_is_source :
+  body "Collection.unmarkReclaimable" =
+    [SIf [] (GCall "nloc.isEmpty" []) [SReturn []] [];
+     SAssign [GVar "n"] ":=" [GCall "nloc.Node" []];
+     SIf [] (GBin "==" (GVar "n") GNil) [SReturn []] [];
+     SExpr (GCall "t.rootLock.Lock" []);
+     SIf [] (GBin "==" (GVar "n.next") (GVar "reclaimMark")) [SAssign [GVar "n.next"] "=" [GNil]] [];
+     SExpr (GCall "t.rootLock.Unlock" []);
+     SExpr (GCall "t.unmarkReclaimable" [GUn "&" (GVar "n.left"); GVar "reclaimMark"]);
+     SExpr (GCall "t.unmarkReclaimable" [GUn "&" (GVar "n.right"); GVar "reclaimMark"])] /\
+  body "Collection.markReclaimable" =
+    [SExpr (GCall "t.rootLock.Lock" []);
+     SDefer (GCall "t.rootLock.Unlock" []);
+     SIf [] (GBin "||" (GBin "||" (GBin "==" (GVar "n") GNil) (GBin "!=" (GVar "n.next") GNil))
+                       (GBin "==" (GVar "n") (GVar "reclaimMark")))
+       [SReturn []] [];
+     SAssign [GVar "n.next"] "=" [GVar "reclaimMark"]].
+Proof. exact DecMarks.unmark_walks_the_whole_tree. Qed.
+Print Assumptions c18_unmark_releases_lock_before_descending_is_source.
